@@ -19,7 +19,7 @@ RULE = ('seeded generator: seeds 0..2^32, signal levels 0..1e12 (Gaussian approx
 ASSUMPTIONS = ['statistical bounds are set at >= 7 sigma of the estimator (false-alarm probability < 1e-11 per test)',
                '"rejects" means raises an exception instead of returning a frame']
 PLAN = {'quick': {'gen': 8}, 'thorough': {'gen': 16, 'tests': 1, 'docs': 1}}
-REQUIRED_BUCKETS = ['defaults', 'shot:frame-dtype', 'shot:poisson', 'shot:poisson-large', 'shot:poisson-mixed', 'shot:gaussian-bias', 'shot:reject-negative:bright-frame', 'dark:large-rate', 'dark:near-integer-rate', 'shot:gaussian', 'shot:reject-negative', 'shot:reject-huge', 'shot:reject-array',
+REQUIRED_BUCKETS = ['defaults', 'reuse', 'shot:frame-dtype', 'shot:poisson', 'shot:poisson-large', 'shot:poisson-mixed', 'shot:gaussian-bias', 'shot:reject-negative:bright-frame', 'dark:large-rate', 'dark:near-integer-rate', 'shot:gaussian', 'shot:reject-negative', 'shot:reject-huge', 'shot:reject-array',
                     'read_noise', 'read_noise:small-frames', 'read_noise:cube', 'dark:nofpn', 'dark:fpn', 'rule07', 'psd:square', 'psd:nonsquare', 'cosmic', 'cosmic:long-side', 'cosmic:very-long-strip', 'fresh-process']
 REQUIRED_ANCHORS = ['anchor:shot_noise', 'anchor:read_noise', 'anchor:dark_current', 'anchor:power_spectrum',
                     'anchor:_cosmic_ray', 'anchor:_nrays']
